@@ -498,6 +498,80 @@ def fault_clear(pid):
     return c
 
 
+def alter_field(pid):
+    """Alter._alter_field: for every enabled alteration whose time has come, exactly the addressed field (model[k], dev[k], src[k],
+    attr[k]) is set once to old (+ - * / =) amount[k] as the method selector says; nothing is touched otherwise."""
+    N = fresh('n', I)
+
+    def get(ex, st, args, kw, node):
+        i = to_z3(st.env['ii'])
+        base = args[0]
+        ok = (isinstance(base, Mark) and base.kind == 'devmodel' and _is_elem(st, base.data[0], 'self.model.v', i)
+              and _is_elem(st, kw.get('idx'), 'self.dev.v', i) and _is_elem(st, kw.get('src'), 'self.src.v', i)
+              and _is_elem(st, kw.get('attr'), 'self.attr.v', i))
+        v0 = fresh('v0', R)
+        st.ghost['get'] = (bool(ok), v0)
+        return NR(v0)
+
+    def set_(ex, st, args, kw, node):
+        i = to_z3(st.env['ii'])
+        base = args[0]
+        g = st.ghost.get('get') or (False, z3.RealVal(0))
+        ok = (isinstance(base, Mark) and base.kind == 'devmodel' and g[0] and _is_elem(st, base.data[0], 'self.model.v', i)
+              and _is_elem(st, kw.get('idx'), 'self.dev.v', i) and _is_elem(st, kw.get('src'), 'self.src.v', i)
+              and _is_elem(st, kw.get('attr'), 'self.attr.v', i))
+        v0 = g[1]
+        amt = st.content(st.load('self.amount.v')).vals[i]
+        sw = [st.content(st.load('self.SW.s%d' % k)).vals[i] == 1 for k in range(5)]
+        want = z3.If(sw[0], v0 + amt, z3.If(sw[1], v0 - amt, z3.If(sw[2], v0 * amt, z3.If(sw[3], v0 / amt, amt))))
+        ex.oblige(st, 'pre@call:set(src[k],dev[k],attr[k],value=old<op>amount[k])-on-model[k]',
+                  z3.And(z3.BoolVal(bool(ok)), as_real(kw.get('value')).val == want), {})
+        st.ghost['sets'] = st.ghost['sets'] + 1
+        return None
+
+    def reset(v):
+        v.st.ghost['sets'] = 0
+        v.st.ghost['in_iter'] = True
+        return True
+
+    def fired(v):
+        if not v.st.ghost.get('in_iter'):
+            return True
+        i = v.local('$i0') - 1
+        due = z3.And(v.st.content(v.st.env['is_time']).vals[i] != 0, v.arr('self.u.v').vals[i] != 0)
+        valid = z3.Or(*[v.arr('self.SW.s%d' % k).vals[i] == 1 for k in range(5)])
+        sets = v.st.ghost['sets']
+        sets = sets if z3.is_expr(sets) else z3.IntVal(sets)
+        return z3.And(z3.Implies(z3.And(due, valid), sets == 1), z3.Implies(z3.Not(due), sets == 0))
+    sch = {'self.n': TInt(), 'self.u.v': TArr(n=N), 'self.model.v': TSeq(elem=K), 'self.dev.v': TSeq(elem=K), 'self.src.v': TSeq(elem=K),
+           'self.attr.v': TSeq(elem=K), 'self.amount.v': TArr(n=N), 'self.rand.v': TArr(n=N), 'self.lb.v': TArr(n=N), 'self.ub.v': TArr(n=N),
+           'self.idx.v': TSeq(elem=K), 'self.t.v': TArr(n=N), 'self.method.v': TSeq(elem=K), 'self.class_name': TStr(),
+           'self.system.dae.t': TReal()}
+    for k in range(5):
+        sch['self.SW.s%d' % k] = TArr(n=N)
+    c = Contract(FT, 'AlterModel._alter_field', pid=pid, params={'self': TObj(), 'is_time': TArr(kind='bool', n=N)}, schema=sch,
+                 requires=[('n', lambda v: z3.And(v.z('self.n') == N, N >= 0)),
+                           ('fixed-amounts(rand=0)-and-non-zero-divisors', lambda v: z3.ForAll([KQ2], z3.Implies(z3.And(KQ2 >= 0, KQ2 < N), z3.And(
+                               v.arr('self.rand.v').vals[KQ2] == 0, v.arr('self.amount.v').vals[KQ2] != 0))))],
+                 ghost_init={'sets': 0},
+                 calls={'__objdict__': _dev_model, '<value>.get': get, '<value>.set': set_, 'tqdm.write': lambda ex, st, a, k, n: None,
+                        'repr': lambda ex, st, a, k, n: 'r'},
+                 globals_={'tqdm': Module('tqdm'), 'repr': Func('repr')},
+                 loops={0: Loop(inv=[('alteration-k-sets-its-field-once-iff-due-enabled-and-method-valid', fired)], assume=[('reset', reset)],
+                                frame=['$ii', '$model', '$idx', '$src', '$attr', '$amount', '$v0', '$vnew', '$action', 'loc:self.u.v',
+                                       'ghost:sets', 'ghost:get', 'ghost:in_iter'])},
+                 ensures=[], modifies=['self.u.v'])
+    c.check_bounds = False
+
+    def pre_state(st):
+        st.ghost.pop('in_iter', None)
+    c.pre_state = pre_state
+    return c
+
+
+KQ2 = z3.Int('kq2')
+
+
 WIT_F28 = {'F28': lambda old, new: old.st.ghost['nkeys'] > 0}       # schedule not empty at entry
 
 
@@ -536,5 +610,5 @@ def add_obligations(pack, tier, pid='C06'):
                 'what np.argsort / the >= dae.t selection guarantee: ascending, paired)')
     items = [(store_switch_times_tail(pid, True), None, replay_store_switch_times), (store_switch_times_tail(pid, False), WIT_F28, replay_store_switch_times),
              (fn_tds.tds_init(pid),), (is_time(pid),), (model_switch_action(pid),), (system_switch_action(pid),),
-             (toggle_u_switch(pid),), (fault_apply(pid),), (fault_clear(pid),)]
+             (toggle_u_switch(pid),), (fault_apply(pid),), (fault_clear(pid),), (alter_field(pid),)]
     run_contracts(pack, items)
